@@ -154,4 +154,115 @@ def closerNext : List SSym → Bool
   | _ => false
 
 
+/-! ### the lines of the printed text (statement of `pretty_lines_indented`) -/
+
+/-- characters an indentation string may be made of: white space that is no line terminator -/
+def indentCharOK (c : Char) : Bool :=
+  c == ' ' || c == '\t' || c == Char.ofNat 0x0b || c == Char.ofNat 0x0c || c == Char.ofNat 0xa0
+
+def indentOK (s : String) : Bool := s.toList.all indentCharOK
+
+/-- what the Indentator prints for depth `d`: nothing when `ind × d` is empty, else that one fragment -/
+def indentFragsOf (ind : String) (d : Int) : List Frag :=
+  if strMul ind d == "" then []
+  else [{ text := strMul ind d, line := none, col := none, name := none, source := .none }]
+
+/-- a chunk that always prints a token: a token fragment, or `;` `{` `}` of a layout handler -/
+def isPrinting : Chunk → Bool
+  | .frag _ => true
+  | .layout _ h _ => isVisibleH h
+
+/-- STRUCTURAL DEPTH of every printing chunk, in order: the number of `Indent` minus `Dedent` markers the
+definitions have issued before it (`l` = the depth at the start) — block braces, object literals, switch
+blocks and the bodies of case / default clauses all count through their `Indent` -/
+def printingDepths : List Chunk → Int → List Int
+  | [], _ => []
+  | c :: cs, l => (if isPrinting c then [l] else []) ++ printingDepths cs (l + chunkDelta c)
+
+/-- how `checkLines` reads a fragment of the final stream -/
+inductive FragClass where
+  | newline | space | token
+  deriving DecidableEq, Repr
+
+/-- layout fragments carry no source (token fragments always carry one, see C08): `"\n"` is a line break,
+`;` `{` `}` are tokens, any other layout fragment is white space (a space, or an indentation) -/
+def classifyFrag (f : Frag) : FragClass :=
+  if f.source == .none then
+    if f.text == "\n" then .newline
+    else if f.text == ";" || f.text == "{" || f.text == "}" then .token
+    else .space
+  else .token
+
+/-- a token that is the first of its line (`pend = some ws`) is preceded by exactly the indentation of depth `d` -/
+def lineOK (ind : String) (pend : Option (List Frag)) (d : Int) : Bool :=
+  match pend with
+  | some ws => ws == indentFragsOf ind d
+  | none => true
+
+/--
+The judge of `pretty_lines_indented`, run over the FINAL fragment stream.
+`ds`   depths still owed to the tokens to come (one per token, in order)
+`pend` `some ws` while no token has been seen since the start of the line (`ws` = white-space
+       fragments since the line break; the text starts at a line start: `some []`), else `none`.
+Every token that is the first of its line must be preceded by exactly `indentFragsOf ind depth`;
+all depths must be used up.
+-/
+def checkLines (ind : String) : List Frag → List Int → Option (List Frag) → Bool
+  | [], ds, _ => ds.isEmpty
+  | f :: fs, ds, pend =>
+    match classifyFrag f with
+    | .newline => checkLines ind fs ds (some [])
+    | .space => checkLines ind fs ds (pend.map (· ++ [f]))
+    | .token =>
+      match ds with
+      | [] => false
+      | d :: ds' => lineOK ind pend d && checkLines ind fs ds' none
+
+def isNewlineH : HandlerId → Bool
+  | .indNewline | .indNewlineOptional => true
+  | _ => false
+
+def isSpaceH : HandlerId → Bool
+  | .spaceImply | .spaceOptionalPretty => true
+  | _ => false
+
+/-- where the walk stands with respect to the current line: after a token / just after a newline marker
+(nothing since) / after a newline marker and then an `Indent`, `Dedent` or space marker -/
+inductive LMode where
+  | mid | fresh | dirty
+  deriving DecidableEq, Repr
+
+/-- hypothesis of `pretty_lines_indented`: between the newline marker that starts a line and the first token of
+that line the definitions issue no `Indent`, `Dedent` or space marker (another newline marker resets).
+True of every stream the parser's trees produce (each `Newline` rule is followed by a token or a visible child);
+it fails e.g. when a `case` clause whose statements print nothing is used as an expression. -/
+def stableStep (c : Chunk) (m : LMode) : Option LMode :=
+  match c with
+  | .frag _ => if m == .dirty then none else some .mid
+  | .layout _ h _ =>
+    if isVisibleH h then (if m == .dirty then none else some .mid)
+    else if isNewlineH h then some .fresh
+    else if hDelta h != 0 || isSpaceH h then some (if m == .fresh then .dirty else m)
+    else some m
+
+def stableRun : List Chunk → LMode → Option LMode
+  | [], m => some m
+  | c :: cs, m =>
+    match stableStep c m with
+    | some m' => stableRun cs m'
+    | none => none
+
+def lineStartsStable (cs : List Chunk) : Bool := (stableRun cs .fresh).isSome
+
+/-- every token text is non-empty, does not begin with CR / LF and does not end with a line terminator
+(it may contain line terminators: multi-line strings and comments) -/
+def tokensEdgeB (cs : List Chunk) : Bool :=
+  (tokenFrags cs).all (fun f =>
+    (match f.text.toList.head? with
+     | some c => !(c == '\r' || c == '\n')
+     | none => false) &&
+    (match f.text.toList.getLast? with
+     | some c => !isLT c
+     | none => false))
+
 end CalmVerif.Unparse
